@@ -362,4 +362,272 @@ def relations(rng, tier, rpt):
                     "(%d candidates are valid points and have to be discarded first; reference bump %d)" % (255 - bump, bump), name, str(got), want)
     rpt.extra["spl_longest_discarded_run"] = deepest
     rpt.extra["impl_relation_checks"] = n
-    return bad[:6]
+    bad = bad[:6]
+    slow_ref = _start_default_cost_reference(rng, tier)       # runs beside the next relation (hashlib releases the interpreter lock)
+    bad += _one_wallet_many_threads(rng, tier, rpt)
+    bad = bad[:10]
+    bad += _brainwallet_defaults_in_histories(rng, tier, rpt, slow_ref)
+    return bad[:14]
+
+
+# ---- brainwallet KDFs: every omitted parameter means its documented default, on every call of a process
+BRAIN_DEFAULTS = {"PBKDF2_HMAC_SHA512": {"salt": "", "itr_num": 2097152}, "SCRYPT": {"salt": "", "n": 131072, "r": 8, "p": 8}}
+
+
+def _ref_brain(algo, pw, given):
+    """the key the statement defines: the selected KDF of the passphrase with the given parameters, the documented default for each omitted one"""
+    prm = dict(BRAIN_DEFAULTS[algo])
+    prm.update(given)
+    pwb, salt = pw.encode("utf-8"), prm["salt"].encode("utf-8")
+    if algo == "PBKDF2_HMAC_SHA512":
+        return hashlib.pbkdf2_hmac("sha512", pwb, salt, prm["itr_num"], 32)
+    return hashlib.scrypt(pwb, salt=salt, n=prm["n"], r=prm["r"], p=prm["p"], dklen=32, maxmem=128 * prm["n"] * prm["r"] * 2 + 128 * prm["r"] * prm["p"] * 4 + (1 << 20))
+
+
+def _start_default_cost_reference(rng, tier):
+    """the reference values of the calls that run at the documented DEFAULT cost (seconds each) are computed by a helper thread while the main
+    thread goes on; -> (calls [(algo, passphrase, given parameters)], answers dict filled by the thread, thread)"""
+    import threading
+    pw = "default cost %d" % rng.randrange(10**6)
+    calls = [("PBKDF2_HMAC_SHA512", pw, {"salt": "pepper %d" % rng.randrange(100)})]
+    if tier != "quick":
+        calls += [("PBKDF2_HMAC_SHA512", pw, {}), ("SCRYPT", pw, {}), ("SCRYPT", pw, {"salt": "NaCl"})]
+    answers = {}
+
+    def work():
+        for j, (algo, p, given) in enumerate(calls):
+            answers[j] = _ref_brain(algo, p, given)
+    th = threading.Thread(target=work)
+    th.start()
+    return calls, answers, th
+
+
+def _brainwallet_defaults_in_histories(rng, tier, rpt, slow_ref):
+    """A brainwallet key is the selected KDF of the passphrase with the parameters of THAT call; a parameter the call omits is its documented
+    default (salt "", 2 097 152 PBKDF2 iterations, scrypt N = 131 072, r = 8, p = 8) whatever earlier calls of the process passed. Several
+    "users" of one process ask for PBKDF2 and scrypt wallets, each giving a different SUBSET of the parameters (all, none of the cheap ones,
+    each one alone omitted), in a shuffled order that is run twice, so that every omission is preceded by explicit non-default values of the
+    same parameter. Each key is compared with hashlib's pbkdf2_hmac / scrypt. The calls at the full default cost come last (quick: one PBKDF2
+    call without `itr_num`; thorough: also everything omitted, both KDFs)."""
+    bad = []
+    seen = set()
+
+    def rep(what, inp, got, want):
+        if what not in seen:
+            seen.add(what)
+            bad.append({"property": "C20", "entry_point": what, "request_lines": [], "relation": what, "input": inp,
+                        "impl_output": got, "model_output": want, "no_failing_input": False})
+
+    # coins whose private key is any 32-byte string in the curve's range (the Cardano coins take 64-byte extended keys: no KDF output fits)
+    def takes_32_bytes(c):
+        try:
+            Brainwallet.Generate("probe", c, BrainwalletAlgos.SHA256)
+            return True
+        except Exception:  # noqa
+            return False
+    coins = [c for c in BrainwalletCoins if takes_32_bytes(c)] or [BrainwalletCoins.BITCOIN]
+    pws = ["correct horse battery staple", "pässwörd", "", "😀 brain", "The quick brown fox %d" % rng.randrange(1000)]
+    salts = ["pepper", "sält", "NaCl %d" % rng.randrange(1000), "s"]
+    cheap = []
+    for rnd in range(1 if tier == "quick" else 6):
+        itr = lambda: rng.choice([1, 2, 3, 10, 100, 1000])              # noqa: E731
+        n_ = lambda: rng.choice([2, 4, 16, 64, 1024])                    # noqa: E731
+        r_ = lambda: rng.choice([1, 2, 4])                               # noqa: E731
+        p_ = lambda: rng.choice([1, 2, 3])                               # noqa: E731
+        sl = lambda: rng.choice(salts)                                   # noqa: E731
+        cheap += [("PBKDF2_HMAC_SHA512", {"salt": sl(), "itr_num": itr()}), ("PBKDF2_HMAC_SHA512", {"itr_num": itr()}),
+                  ("PBKDF2_HMAC_SHA512", {"salt": sl(), "itr_num": itr()}), ("PBKDF2_HMAC_SHA512", {"itr_num": itr()}),
+                  ("SCRYPT", {"salt": sl(), "n": n_(), "r": r_(), "p": p_()}), ("SCRYPT", {"n": n_(), "r": r_(), "p": p_()}),
+                  ("SCRYPT", {"salt": sl(), "n": n_(), "p": p_()}), ("SCRYPT", {"salt": sl(), "n": n_(), "r": r_()}), ("SCRYPT", {"salt": sl(), "n": n_()}),
+                  ("SCRYPT", {"n": n_()}), ("SCRYPT", {"salt": sl(), "n": n_(), "r": r_(), "p": p_()}),
+                  # N omitted: the default 131 072 at the smallest block size for which it is a legal scrypt parameter set (N < 2^(16 r))
+                  ("SCRYPT", {"salt": sl(), "r": 2, "p": 1})]
+    history = []
+    n = 0
+
+    def run(algo, pw, given):
+        nonlocal n
+        n += 1
+        omitted = [k for k in BRAIN_DEFAULTS[algo] if k not in given]
+        desc = "Brainwallet.Generate(%r, %s, %s%s)" % (pw, coin.name, algo, "".join(", %s=%r" % kv for kv in given.items()))
+        history.append(desc)
+        try:
+            got = Brainwallet.Generate(pw, coin, BrainwalletAlgos[algo], **given).PrivateKey().Raw().ToBytes().hex()
+        except Exception as ex:  # noqa
+            got = "raised %s: %s" % (type(ex).__name__, str(ex)[:100])
+        return desc, omitted, got
+
+    for pas in range(2):
+        order = list(cheap)
+        rng.shuffle(order)
+        if pas == 0:      # the process' first KDF call of each kind gives every parameter explicitly
+            order.sort(key=lambda c: len(c[1]) != len(BRAIN_DEFAULTS[c[0]]))
+        for algo, given in order:
+            coin = coins[rng.randrange(len(coins))]
+            pw = pws[rng.randrange(len(pws))]
+            desc, omitted, got = run(algo, pw, given)
+            want = _ref_brain(algo, pw, given).hex()
+            if got != want:
+                rep("brainwallet %s with %s: the key is not the KDF of the passphrase under the given parameters and the documented defaults (%s) for the omitted ones"
+                    % (algo, ("%s omitted" % " and ".join(omitted)) if omitted else "every parameter given", ", ".join("%s=%r" % (k, BRAIN_DEFAULTS[algo][k]) for k in omitted) or "-"),
+                    "%s; calls of the process so far: %s" % (desc, history[-12:]), got, want)
+    calls, answers, th = slow_ref
+    for j, (algo, pw, given) in enumerate(calls):
+        coin = coins[rng.randrange(len(coins))]
+        desc, omitted, got = run(algo, pw, given)
+        th.join() if j not in answers else None
+        want = answers[j].hex()
+        if got != want:
+            rep("brainwallet %s at the default cost (%s omitted): the key is not the KDF of the passphrase under the documented defaults (%s)"
+                % (algo, " and ".join(omitted), ", ".join("%s=%r" % (k, BRAIN_DEFAULTS[algo][k]) for k in omitted)),
+                "%s; calls of the process so far: %s" % (desc, history[-8:]), got, want)
+    th.join()
+    rpt.extra["brainwallet_history_calls"] = n
+    return bad[:4]
+
+
+# ---- the defining formulas once more, with hashlib / hmac / coincurve only (no bip_utils code, hence no state any call could touch)
+def _ref_pub(k32, compressed=True):
+    from coincurve import PublicKey as _CPub
+    return _CPub.from_valid_secret(k32).format(compressed=compressed)
+
+
+def _hash160(b):
+    try:
+        return hashlib.new("ripemd160", hashlib.sha256(b).digest()).digest()
+    except ValueError:      # OpenSSL built without the legacy digests
+        from Crypto.Hash import RIPEMD160
+        return RIPEMD160.new(hashlib.sha256(b).digest()).digest()
+
+
+def _ref_p2pkh(pub):
+    body = b"\x00" + _hash160(pub)
+    return b58e(body + hashlib.sha256(hashlib.sha256(body).digest()).digest()[:4])
+
+
+def _ref_p2wpkh(pub, hrp="bc"):
+    """BIP-173: witness version 0, the 20-byte key hash regrouped into 5-bit symbols, the 6-symbol BCH checksum"""
+    charset = "qpzry9x8gf2tvdw0s3jn54khce6mua7l"
+    acc = bits = 0
+    data = [0]
+    for byte in _hash160(pub):
+        acc, bits = (acc << 8) | byte, bits + 8
+        while bits >= 5:
+            bits -= 5
+            data.append((acc >> bits) & 31)
+    if bits:
+        data.append((acc << (5 - bits)) & 31)
+    chk = 1
+    for v in [ord(c) >> 5 for c in hrp] + [0] + [ord(c) & 31 for c in hrp] + data + [0] * 6:
+        top = chk >> 25
+        chk = (chk & 0x1ffffff) << 5 ^ v
+        for i, g in enumerate((0x3b6a57b2, 0x26508e6d, 0x1ea119fa, 0x3d4233dd, 0x2a1462b3)):
+            chk ^= g if (top >> i) & 1 else 0
+    chk ^= 1
+    return hrp + "1" + "".join(charset[d] for d in data + [(chk >> 5 * (5 - i)) & 31 for i in range(6)])
+
+
+def _ref_bip32_path(seed, path):
+    """private key of the BIP-32 secp256k1 node at `path` (a list of 32-bit indexes) under the master of `seed`"""
+    import hmac
+    i64 = hmac.new(b"Bitcoin seed", seed, hashlib.sha512).digest()
+    k, c = int.from_bytes(i64[:32], "big"), i64[32:]
+    for i in path:
+        kb = k.to_bytes(32, "big")
+        i64 = hmac.new(c, (b"\x00" + kb if i >= 2**31 else _ref_pub(kb)) + i.to_bytes(4, "big"), hashlib.sha512).digest()
+        k, c = (int.from_bytes(i64[:32], "big") + k) % N, i64[32:]
+    return k.to_bytes(32, "big")
+
+
+def _ref_ev1_child(master32, change, index):
+    mpub = _ref_pub(master32, compressed=False)[1:]
+    seq = hashlib.sha256(hashlib.sha256(("%d:%d:" % (index, change)).encode() + mpub).digest()).digest()
+    return ((int.from_bytes(master32, "big") + int.from_bytes(seq, "big")) % N).to_bytes(32, "big")
+
+
+def _one_wallet_many_threads(rng, tier, rpt):
+    """"For every master key and index pair" holds for every CALL: a child key, public key or address depends on the wallet's master key and
+    the (change, index) arguments of the call, not on what other threads ask the same wallet object at the same moment. ONE wallet object per
+    class (Electrum v1 private and public-only, v2 standard, v2 segwit) is shared by several threads released together (barrier, minimal
+    switch interval); the threads walk over one pool of (change, index) pairs, each in its own order and more than once (so that calls for
+    the same pair, for pairs sharing one component, and repeated calls all meet), asking private key, public key and address in turn. Every
+    answer is compared with the formula recomputed outside the library (hashlib / hmac / coincurve) before the threads start."""
+    import sys, threading
+    bad = []
+
+    def rep(what, inp, got, want):
+        bad.append({"property": "C20", "entry_point": what, "request_lines": [], "relation": what, "input": inp,
+                    "impl_output": got, "model_output": want, "no_failing_input": False})
+
+    n_threads = 5
+    per_thread = 150 if tier == "quick" else 2000
+    kinds = ["ElectrumV1 (private)", "ElectrumV1 (public-only)", "ElectrumV2Standard", "ElectrumV2Segwit"]
+    if tier != "quick":
+        kinds = kinds * 4
+    n_obs = 0
+    old = sys.getswitchinterval()
+    for rnd, kind in enumerate(kinds):
+        k = rand_priv(rng, "secp256k1")
+        seed = rand_seed(rng)
+        if kind == "ElectrumV1 (private)":
+            w = ElectrumV1.FromPrivateKey(k)
+        elif kind == "ElectrumV1 (public-only)":
+            w = ElectrumV1.FromPublicKey(_ref_pub(k))
+        else:
+            w = (ElectrumV2Standard if kind == "ElectrumV2Standard" else ElectrumV2Segwit).FromSeed(seed)
+        changes = [0, 1] + ([rng.choice([2, 2**31 - 1, rng.getrandbits(31)])] if "V1" in kind else [])
+        idxs = list(range(rng.randrange(0, 5), 60, 3))[:16] + [2**31 - 1, rng.getrandbits(31)]
+        pool = [(c, i) for c in changes for i in idxs]
+        want = {}
+        for c, i in pool:
+            if "V1" in kind:
+                priv = _ref_ev1_child(k, c, i)
+                addr = _ref_p2pkh(_ref_pub(priv, compressed=False))
+            elif kind == "ElectrumV2Standard":
+                priv = _ref_bip32_path(seed, [c, i])
+                addr = _ref_p2pkh(_ref_pub(priv))
+            else:
+                priv = _ref_bip32_path(seed, [2**31, c, i])
+                addr = _ref_p2wpkh(_ref_pub(priv))
+            want[(c, i)] = {"GetPrivateKey": priv.hex(), "GetPublicKey": _ref_pub(priv).hex(), "GetAddress": addr}
+        questions = ["GetPrivateKey", "GetPublicKey", "GetAddress"] if kind != "ElectrumV1 (public-only)" else ["GetPublicKey", "GetAddress"]
+        ask = {"GetPrivateKey": lambda c, i: w.GetPrivateKey(c, i).Raw().ToBytes().hex(), "GetPublicKey": lambda c, i: w.GetPublicKey(c, i).RawCompressed().ToBytes().hex(),
+               "GetAddress": lambda c, i: w.GetAddress(c, i)}
+        jobs = []
+        for t in range(n_threads):
+            order = list(pool)
+            rng.shuffle(order)
+            # thread t asks its q-th pair question number (q + t): at any moment the threads mostly ask different questions about different pairs
+            jobs.append([(questions[(q + t) % len(questions)],) + order[q % len(order)] for q in range(per_thread)])
+        results = [[None] * per_thread for _ in range(n_threads)]
+        bar = threading.Barrier(n_threads)
+
+        def worker(t):
+            bar.wait()
+            for q, (what, c, i) in enumerate(jobs[t]):
+                try:
+                    results[t][q] = ask[what](c, i)
+                except Exception as ex:  # noqa
+                    results[t][q] = "raised %s: %s" % (type(ex).__name__, str(ex)[:80])
+        sys.setswitchinterval(1e-6)
+        try:
+            ths = [threading.Thread(target=worker, args=(t,)) for t in range(n_threads)]
+            for th in ths:
+                th.start()
+            for th in ths:
+                th.join()
+        finally:
+            sys.setswitchinterval(old)
+        n_obs += n_threads * per_thread
+        wrong = [(t, q) for t in range(n_threads) for q in range(per_thread) if results[t][q] != want[jobs[t][q][1:]][jobs[t][q][0]]]
+        if wrong:
+            t, q = wrong[0]
+            what, c, i = jobs[t][q]
+            other = [p for p in pool if p != (c, i) and want[p][what] == results[t][q]]
+            rep("%s shared by %d threads: %s(change, index) answered to one thread is not the defining formula's value for the wallet's master key and these indexes "
+                "(%d of %d concurrent answers wrong%s)" % (kind, n_threads, what, len(wrong), n_threads * per_thread,
+                                                          "; it is the value for (change, index) = %s, asked by other threads" % (other[0],) if other else ""),
+                "%s, thread %d call #%d: %s(%d, %d)" % ("master private key " + k.hex() if "V1" in kind else "seed " + seed.hex(), t, q, what, c, i),
+                str(results[t][q]), want[(c, i)][what])
+    rpt.extra["shared_wallet_thread_observations"] = n_obs
+    return bad[:4]
